@@ -474,6 +474,10 @@ func (w *World) idpHook(req *http.Request) error {
 	case "crash":
 		env.Calls[idx].Failed = true
 		panic(Crash{At: idx})
+	case "cancel-after":
+		if env.Cancel != nil {
+			w.IdP.AfterProcess = env.Cancel
+		}
 	}
 	return nil
 }
@@ -489,6 +493,8 @@ type Req struct {
 	// CookieForm: shape of the Cookie header around the session cookie, "{C}" standing for name=value - what browsers
 	// really send next to it (other applications' cookies, a trailing semicolon, a pair without value)
 	CookieForm string `json:"cookie_form,omitempty"`
+	// ExtraHeaders: further request headers (what proxies in front of Envoy add: x-forwarded-*, forwarded, ...)
+	ExtraHeaders map[string]string `json:"extra_headers,omitempty"`
 }
 
 // Result is a parsed CheckResponse.
@@ -534,9 +540,12 @@ func (w *World) Envoy(r Req) *envoy.CheckRequest {
 	if r.RawCookie != "" {
 		h["cookie"] = r.RawCookie
 	} else if r.Cookie != "" && r.CookieForm != "" {
-		h["cookie"] = strings.ReplaceAll(r.CookieForm, "{C}", CookieName(w.Spec.CookiePrefix)+"="+r.Cookie)
+		h["cookie"] = strings.ReplaceAll(strings.ReplaceAll(r.CookieForm, "{C}", CookieName(w.Spec.CookiePrefix)+"="+r.Cookie), "{N}", CookieName(w.Spec.CookiePrefix))
 	} else if r.Cookie != "" {
 		h["cookie"] = "other=1; " + CookieName(w.Spec.CookiePrefix) + "=" + r.Cookie
+	}
+	for k, v := range r.ExtraHeaders {
+		h[k] = v
 	}
 	return &envoy.CheckRequest{Attributes: &envoy.AttributeContext{Request: &envoy.AttributeContext_Request{
 		Http: &envoy.AttributeContext_HttpRequest{Id: "req", Method: "GET", Scheme: scheme, Host: host, Path: r.Path, Headers: h, Protocol: "HTTP/1.1"},
@@ -598,7 +607,10 @@ func (w *World) DoRaw(req *envoy.CheckRequest) (res Result) {
 	if err != nil {
 		return Result{Err: err.Error(), Code: codes.Unknown}
 	}
-	if err := h.Process(context.Background(), req, resp); err != nil {
+	ctx, cancel := context.WithCancel(context.Background())
+	defer cancel()
+	w.CurEnv().Cancel = cancel
+	if err := h.Process(ctx, req, resp); err != nil {
 		return Result{Err: err.Error(), Code: codes.Unknown}
 	}
 	return ParseResponse(resp)
@@ -795,8 +807,36 @@ func (w *World) HasAnything(sid string) bool {
 	if w.Mini != nil {
 		return RedisKeyFor(w.Mini, 0, sid) != ""
 	}
-	_, ok := oidc.VerifMemorySnapshot(w.Raw)[sid]
-	return ok
+	snap := oidc.VerifMemorySnapshot(w.Raw)
+	if _, ok := snap[sid]; ok {
+		return true
+	}
+	if sid == "" {
+		return false
+	}
+	for k := range snap {
+		if strings.Contains(k, sid) { // a key that merely contains the id: a key-naming scheme, not a missing session
+			return true
+		}
+	}
+	return false
+}
+
+// CanonSID maps a store key to the session id (cookie value) it belongs to: the key itself, or - when a caller
+// namespaces its keys - the issued id the key contains.
+func (w *World) CanonSID(key string) string {
+	if key == "" {
+		return key
+	}
+	for _, sid := range w.Gen.SIDs {
+		if sid != "" && key != sid && strings.Contains(key, sid) {
+			return sid
+		}
+	}
+	if key != "attackerchosenid" && strings.Contains(key, "attackerchosenid") {
+		return "attackerchosenid"
+	}
+	return key
 }
 
 // RedisKeyFor finds the key under which a store keeps session sid (the id itself today; a key that merely contains
